@@ -216,17 +216,18 @@ def _frac_rows(a, b):
     return rows
 
 
-def sym_seconds_frac(k0, k1, mode):
-    """seconds_range given as dyadic fractions k/512 s (exactly representable), run start of unix-epoch size."""
+def sym_seconds_frac(k0, k1, mode, den=512):
+    """seconds_range given as fractions k/den s: dyadic (k/512, exactly representable) or decimal (k/1000, the nearest
+    double is NOT the decimal; the request means the decimal), run start of unix-epoch size."""
     S = fresh_int("S", 1_600_000_000 * 10**9, 1_800_000_000 * 10**9)
     t0 = (S // 10**9) * 10**9
-    a, b = t0 + k0 * 1953125, t0 + k1 * 1953125  # 1e9 / 512 = 1953125
+    a, b = t0 + k0 * (10**9 // den), t0 + k1 * (10**9 // den)  # 1e9 / 512 = 1953125
     assume(a - 200 >= S)
     rows = [(t, e, i) for i, (t, e) in enumerate(_frac_rows(a, b))]
     E = b + 1000
     L = ctx.Layout([S, E], [rows])
     st, fe = _store(L, True, False, None)
-    res = st.get_array(RUN, "m1", seconds_range=(k0 / 512, k1 / 512), time_selection=mode, progress_bar=False,
+    res = st.get_array(RUN, "m1", seconds_range=(k0 / den, k1 / den), time_selection=mode, progress_bar=False,
                        processor="single_thread")
     ids = [int(x) for x in res["id"]]
     for (t, e, i) in rows:
@@ -237,15 +238,15 @@ def sym_seconds_frac(k0, k1, mode):
 
 def nat_seconds_frac(params, model):
     S = model["S"]
-    k0, k1, mode = params["k0"], params["k1"], params["mode"]
+    k0, k1, mode, den = params["k0"], params["k1"], params["mode"], params.get("den", 512)
     t0 = (S // 10**9) * 10**9
-    a, b = t0 + k0 * 1953125, t0 + k1 * 1953125
+    a, b = t0 + k0 * (10**9 // den), t0 + k1 * (10**9 // den)
     rows = [(t, e, i) for i, (t, e) in enumerate(_frac_rows(a, b))]
     L = ctx.Layout([S, b + 1000], [rows])
     with warnings.catch_warnings():
         warnings.simplefilter("ignore")
         st, fe = _store(L, False, False, None)
-        res = st.get_array(RUN, "m1", seconds_range=(k0 / 512, k1 / 512), time_selection=mode, progress_bar=False)
+        res = st.get_array(RUN, "m1", seconds_range=(k0 / den, k1 / den), time_selection=mode, progress_bar=False)
     got = res["id"].tolist()
     want = [i for (t, e, i) in rows if ((a <= t and e <= b) if mode == "fully_contained" else (e > a and t < b))]
     return {"ok": got == want, "detail": f"got {got} want {want} t0={t0} range=({a},{b})", "label": "seconds_frac:selection"}
@@ -288,7 +289,60 @@ MUTANTS = [
     dict(name="apply_time_range splits strictly on the left", file="strax/storage/common.py",
          old="            _, chunk = chunk.split(t=time_range[0], allow_early_split=True)",
          new="            _, chunk = chunk.split(t=time_range[0] + 1, allow_early_split=True)"),
+    dict(name="seconds_range truncated instead of rounded (original defect F-C10b)", file="strax/context.py",
+         old="                t0 + int(round(1e9 * seconds_range[1])),", new="                t0 + int(1e9 * seconds_range[1]),"),
+    dict(name="two range arguments accepted (original defect F-C10c)", file="strax/context.py",
+         old="        if selection < 3:", new="        if selection < 2:"),
 ]
+
+def _conflict_call(st, a, b, second, within):
+    kw = dict(time_range=(a, b), progress_bar=False, processor="single_thread")
+    if second == "seconds":
+        kw["seconds_range"] = (0, 1)
+    else:
+        kw["time_within"] = within
+    try:
+        res = st.get_array(RUN, "m1", **kw)
+    except RuntimeError as e:
+        return True, str(e)
+    except ValueError as e:  # "no chunk overlaps": an explicit error as well
+        return True, str(e)
+    return False, res
+
+
+def sym_conflict(second):
+    """TWO range arguments at once: the request is ambiguous; an explicit error, never the rows of one of them."""
+    S = fresh_int("S", 0, 10**9)
+    E = fresh_int("E", 0, 2 * 10**9)
+    assume(E > S)
+    L = ctx.sym_layout("src_", [2, 1], S, E=E)
+    st, fe = _store(L, True, False, None)
+    a, b = fresh_int("a", 0, 2 * 10**9), fresh_int("b", 0, 2 * 10**9)
+    assume(a < b)
+    raised, res = _conflict_call(st, a, b, second, _Row(time=L.rows[-1][0], endtime=L.rows[-1][1]))
+    if not raised:
+        ids = [int(x) for x in res["id"]]
+        for (t, e, i) in L.rows:
+            prove(sand(a <= t, e <= b) if i in ids else True,
+                  f"conflict:time_range and {second} given together: row {i} outside the time_range is returned, no error")
+    return raised
+
+
+def nat_conflict(params, model):
+    m = lambda k: model.get(k, 0) or 0
+    L = ctx.conc_layout(model, "src_", [2, 1], m("S"), E=m("E"))
+    with warnings.catch_warnings():
+        warnings.simplefilter("ignore")
+        st, fe = _store(L, False, False, None)
+        r = np.zeros(1, dtype=[("time", np.int64), ("endtime", np.int64)])[0]
+        r["time"], r["endtime"] = L.rows[-1][0], L.rows[-1][1]
+        raised, res = _conflict_call(st, m("a"), m("b"), params["second"], r)
+    if raised:
+        return {"ok": True, "detail": f"explicit error: {res[:80]}"}
+    bad = [int(x["id"]) for x in res if not (m("a") <= x["time"] and x["endtime"] <= m("b"))]
+    return {"ok": not bad, "detail": f"no error; rows {bad} outside time_range ({m('a')},{m('b')}) returned",
+            "label": "conflict:rows outside the time_range"}
+
 
 OBLIGATIONS = [
     Ob("select", sym_select, _grid, nat_select, setup=_setup, witnesses=2,
@@ -297,9 +351,13 @@ OBLIGATIONS = [
     Ob("seconds", sym_seconds, lambda tier: [dict(layout=l, s0=s0, s1=s1) for l in ([1, 1], [2, 1])
                                              for s0, s1 in ((0, 1), (1, 3), (0, 20), (15, 30))], None, setup=_setup, witnesses=0),
     Ob("seconds_frac", sym_seconds_frac, lambda tier: [dict(k0=k0, k1=k1, mode=m) for k0, k1 in ((1, 3), (7, 300), (100, 777))
-                                                       for m in ("fully_contained", "touching")], nat_seconds_frac,
+                                                       for m in ("fully_contained", "touching")]
+       + [dict(k0=k0, k1=k1, mode=m, den=1000) for k0, k1 in ((1, 1001), (1001, 3000), (1003, 2005), (4228, 5000))
+          for m in ("fully_contained", "touching")], nat_seconds_frac,
        setup=_setup, witnesses=3,
        doc="fractional seconds (k/512 s) with an epoch-size run start; float rounding is not modelled symbolically, the "
            "native witness replays carry this obligation"),
+    Ob("conflict", sym_conflict, lambda tier: [dict(second="seconds"), dict(second="within")], nat_conflict, setup=_setup,
+       witnesses=1, doc="two range arguments at once are refused (or at least never yield rows outside the time_range)"),
     Ob("twin", sym_twin, lambda tier: [dict()], None, setup=_setup, expect_cex=True),
 ]
